@@ -151,6 +151,11 @@ class StepOperationExecutor(OperationExecutor[T]):
             checkpointed_result.is_started()
             and self.config.step_semantics is StepSemantics.AT_LEAST_ONCE_PER_RETRY
         ):
+            # no checkpoint precedes the step function here: an orphaned branch stops now
+            self.state.ensure_not_orphaned(
+                self.operation_identifier.operation_id,
+                self.operation_identifier.parent_id,
+            )
             return CheckResult.create_is_ready_to_execute(checkpointed_result)
 
         # Create START checkpoint if not exists. A retry attempt of an AT_MOST_ONCE step (READY after
@@ -193,7 +198,13 @@ class StepOperationExecutor(OperationExecutor[T]):
                 # If we reach here, status must be STARTED - ready to execute
                 return CheckResult.create_is_ready_to_execute(refreshed_result)
 
-        # Ready to execute
+        # Ready to execute: the retry attempt of an AT_LEAST_ONCE step (READY) sent no checkpoint
+        # above, so this is where an orphaned branch stops before its step function runs
+        if checkpointed_result.is_existent():
+            self.state.ensure_not_orphaned(
+                self.operation_identifier.operation_id,
+                self.operation_identifier.parent_id,
+            )
         return CheckResult.create_is_ready_to_execute(checkpointed_result)
 
     def execute(self, checkpointed_result: CheckpointedResult) -> T:
